@@ -3,7 +3,7 @@
 From Coq Require Import String Ascii List Bool ZArith NArith Relations.
 Import ListNotations.
 Require Import V.Lib.PyStr V.Valid.Model V.Valid.Proofs V.Valid.Kahn V.Valid.Replicate V.Valid.Generated V.Valid.GenProofs
-  V.Valid.Scalars V.Valid.Prim V.Valid.PrimEx.
+  V.Valid.Scalars V.Valid.Prim V.Valid.PrimEx V.Valid.ManifestModel V.Valid.Manifest V.Valid.ManifestEx.
 Open Scope string_scope.
 
 (* accepted => identifiers unique, every reference names a component, no dependency cycle (no path from a
@@ -328,6 +328,60 @@ Theorem C11_replica_vs_replica_name_rejected : forall (cnt : cid -> option N) w 
 Proof. exact (repl_replica_clash component_full). Qed.
 Print Assumptions C11_replica_vs_replica_name_rejected.
 
+(* ------------------------------------------------------------------ loading WITH A MANIFEST
+   the top-level folder a manifest key declares is its LEFT-MOST segment: a nested key top/leaf declares top (and
+   never leaf), a key without a separator declares itself, and no declared name holds a separator *)
+Theorem C11_manifest_top_level_of_nested_key : forall top leaf : string,
+  no_sep top = true -> top_level (top ++ String "/"%char leaf) = top.
+Proof. exact top_level_nested. Qed.
+Print Assumptions C11_manifest_top_level_of_nested_key.
+
+Theorem C11_manifest_top_level_of_flat_key : forall k : string, no_sep k = true -> top_level k = k.
+Proof. exact top_level_flat. Qed.
+Print Assumptions C11_manifest_top_level_of_flat_key.
+
+(* accepted with a manifest (replicated load) => the workflow whose references are the written references that are
+   not folder references has every conclusion of C11_sound, and EVERY written reference names a component or is a
+   stage-less reference to the name of a top-level folder (left-most segment of a manifest key, or a special folder) *)
+Theorem C11_manifest_sound : forall keys w wr, accept_man component_full keys w wr = true ->
+  accept component_full (resolve_refs keys w wr) = true /\
+  forall i c brs, nth_error (w_comps w) i = Some c -> nth_error wr i = Some brs ->
+  forall br, In br brs -> wref_ok keys w br.
+Proof. exact (man_sound component_full). Qed.
+Print Assumptions C11_manifest_sound.
+
+Theorem C11_manifest_prim_sound : forall keys w wr, accept_man_prim component_full keys w wr = true ->
+  forall i c brs, nth_error (w_comps w) i = Some c -> nth_error wr i = Some brs ->
+  forall br, In br brs -> wref_ok keys w br.
+Proof. exact (man_prim_sound component_full). Qed.
+Print Assumptions C11_manifest_prim_sound.
+
+(* a written reference that names no component and is not a stage-less reference to a folder is refused by both
+   loads, whatever the manifest *)
+Theorem C11_manifest_dangling_rejected : forall keys w wr i c brs br,
+  nth_error (w_comps w) i = Some c -> nth_error wr i = Some brs -> In br brs -> dangling keys w br ->
+  accept_man component_full keys w wr = false /\ accept_man_prim component_full keys w wr = false.
+Proof. exact (man_dangling_rejected component_full). Qed.
+Print Assumptions C11_manifest_dangling_rejected.
+
+(* ... in particular the one named like the right-most segment of a nested manifest key *)
+Theorem C11_manifest_nested_leaf_rejected : forall top leaf w wr i c brs st,
+  no_sep top = true -> leaf <> top -> ~ In leaf special_folders ->
+  nth_error (w_comps w) i = Some c -> nth_error wr i = Some brs -> In (true, (st, leaf)) brs ->
+  ~ In (st, leaf) (ids w) ->
+  accept_man component_full [(top ++ String "/"%char leaf)%string] w wr = false /\
+  accept_man_prim component_full [(top ++ String "/"%char leaf)%string] w wr = false.
+Proof. exact (man_nested_leaf_rejected component_full). Qed.
+Print Assumptions C11_manifest_nested_leaf_rejected.
+
+(* the control: a stage-less reference to a declared folder that names no component is a folder reference *)
+Theorem C11_manifest_folder_reference : forall keys w (br : wref),
+  fst br = true -> In (snd (snd br)) (folders keys) -> ~ In (snd br) (ids w) ->
+  is_direct (folders keys) (ids w) br = true.
+Proof. exact man_folder_reference. Qed.
+Print Assumptions C11_manifest_folder_reference.
+
+
 (* non-vacuity: a three-component, two-stage workflow with variables is accepted by the regenerated schema and each
    of the eight faults (here: one position each; three for CyclicVars: among the globals, a global through a
    component variable, a component variable on itself) makes it rejected; the CyclicVars instances are applicable *)
@@ -381,7 +435,24 @@ Example C11_nonvacuous :
   = [true; true; false; false] /\
   reasons_repl component_full (cnt_of [((0%N, "sample"), 3%N)]) ex_wf_clash = [2] /\
   map (fun n => accept_repl component_full (ex_cnt_run n) ex_wf_run) [2%N; 10%N; 11%N] = [true; true; false] /\
-  length (expand_ids (ex_cnt_run 10) ex_wf_run) = 12.
+  length (expand_ids (ex_cnt_run 10) ex_wf_run) = 12 /\
+  (* manifest: consume references `extra:ref` / `extract:ref` without a stage; the manifests {}, {extra}, {data/extra},
+     {extra/deep}, {extra/}, {a/b/extra}, {./extra}: the dangling extra:ref is refused by both loads unless extra is the
+     LEFT-MOST segment of a key; written with a stage it is refused also then; extract:ref always loads; data (a
+     special folder) needs no manifest *)
+  top_level_folders ["extra"; "data/extra"; "extra/deep"; "extra/"; "a/b/extra"; "./extra"; ""]
+  = ["extra"; "data"; "extra"; "extra"; "a"; "."; ""] /\
+  map (fun k => (accept_man component_full k ex_man_wf (ex_man_written true "extra"),
+                 accept_man_prim component_full k ex_man_wf (ex_man_written true "extra")))
+      [[]; ["extra"]; ["data/extra"]; ["extra/deep"]; ["extra/"]; ["a/b/extra"]; ["./extra"]; ["zz"; "data/extra"]]
+  = [(false, false); (true, true); (false, false); (true, true); (true, true); (false, false); (false, false);
+     (false, false)] /\
+  map (fun k => accept_man component_full k ex_man_wf (ex_man_written false "extra")) [[]; ["extra"]; ["data/extra"]]
+  = [false; false; false] /\
+  map (fun k => accept_man component_full k ex_man_wf (ex_man_written true "extract")) [[]; ["extra"]; ["x/extract"]]
+  = [true; true; true] /\
+  accept_man component_full [] ex_man_wf (ex_man_written true "data") = true /\
+  dangling ["data/extra"] ex_man_wf (true, (0%N, "extra")).
 Proof.
   split; [vm_compute; reflexivity|]. split; [vm_compute; reflexivity|]. split; [vm_compute; reflexivity|].
   split; [vm_compute; reflexivity|].
@@ -393,5 +464,10 @@ Proof.
   split; [vm_compute; reflexivity|]. split; [vm_compute; reflexivity|]. split; [vm_compute; reflexivity|].
   destruct ex_prim_applicable as [P1 P2]. repeat (split; [assumption|]).
   split; [vm_compute; reflexivity|]. split; [vm_compute; reflexivity|]. split; [vm_compute; reflexivity|].
-  split; [vm_compute; reflexivity|]. split; [vm_compute; reflexivity|]. vm_compute; reflexivity.
+  split; [vm_compute; reflexivity|]. split; [vm_compute; reflexivity|]. split; [vm_compute; reflexivity|].
+  split; [vm_compute; reflexivity|]. split; [vm_compute; reflexivity|]. split; [vm_compute; reflexivity|].
+  split; [vm_compute; reflexivity|]. split; [vm_compute; reflexivity|].
+  split; cbn.
+  - intros [E|[E|[]]]; discriminate.
+  - right. intros [E|[E|[E|[E|[E|[]]]]]]; discriminate.
 Qed.
